@@ -1040,6 +1040,13 @@ struct World
                 static_cast<EthernetPayload&>(p.getPayload()).setData(d.data(), static_cast<uint16_t>(d.size()));
             }
         }
+        else if (op == "XFLAGS")
+        {
+            // one header field of the payload the packet owns, through the typed setter (no resize, no raw poke)
+            Packet& p = pk[N(0)];
+            if (p.payload && p.payload->getLength() >= 6)
+                static_cast<EthernetPayload&>(p.getPayload()).setFlags(static_cast<uint16_t>(N(1)));
+        }
         else if (op == "XTYPE")
         {
             Packet& p = pk[N(0)];
